@@ -146,6 +146,7 @@ func (r *runner) mutateDist(item int, c *tcase, raw json.RawMessage, mseed int64
 		return
 	}
 	mut := mutateBytes(rand.New(rand.NewSource(mseed)), doc)
+	distPath = filepath.Join(r.scratch, "dist.json")
 	r.jr.at(item, 0, "mutate-dist-import")
 	imp, err, pm := importAs(d, mut)
 	r.count("mutations")
